@@ -9,10 +9,10 @@ SPEC = {
         'C02_noprune_plain',
         'C02_store_sound_invariant', 'C02_cache_sound_invariant', 'C02_history_sound',
         'C02_memset_commit_eq_set', 'C02_memset_empty',
-        'C02_update_total_refuted', 'C02_update_total_partial',
+        'C02_update_total_refuted', 'C02_update_total_partial', 'C02_update_total_nomem',
     ],
     'allowed_axioms': [],
-    'shard': 6,
+    'shard': 8,
     'rule': 'one case = one generated history of store operations replayed against the real mavl store under all 32 '
             'combinations of enableMavlPrefix/enableMVCC/enableMavlPrune/enableMemTree/enableMemVal (pruneHeight 0 or '
             '1000000 and tkCloseCacheLen 0 or 7 drawn per run) x {direct Store.Set, MemSet+Commit} = 64 runs, each on a '
@@ -60,8 +60,10 @@ SPEC = {
         'DelKVPair is not a write path of the store (Store.Del is a stub) and is outside this property: with '
         'EnableMavlPrefix it can return a prefixed node key as the new root (observed by C01\'s builder)',
         'totality of updates is proved under the state-level guard "the version below the prior root resolves '
-        'completely" (C02_update_total_partial); that this guard holds along every history when not (prefix and '
-        'memTree) is exercised (every such run must succeed on every history), not proved',
+        'completely" (C02_update_total_partial) and, along all well-formed histories, for configurations without '
+        'memTree and without prune (C02_update_total_nomem: database closed under child keys, ARC cache within it, '
+        'pending trees only refer to stored nodes); for memTree without prefix and for prune without memTree it is '
+        'exercised (every such run must succeed on every history), not proved',
         'heights/sizes are int32 in Go and Z in the model',
     ],
     'manifest': {
@@ -71,7 +73,8 @@ SPEC = {
                       'byte orders and sound states: outside the aliased-empty-Set case a successful update returns the pure '
                       'root (configuration-, cache- and history-independent, Set = MemSet+Commit); without prune that guard '
                       'holds along every history; soundness of database, caches and pending trees is invariant; an update '
-                      'succeeds whenever the version below its parent resolves completely',
+                      'succeeds whenever the version below its parent resolves completely, which holds along every '
+                      'well-formed history when memTree and prune are off',
         'level_note': 'symbolic injective SHA-256 and farm hash; LevelDB/ARC as oracles; lazy loading modelled by '
                       'materialise-and-replay, validated by per-run prediction of panics; two add-only hook files',
         'technique': 'Coq proof (refinement of the annotated Go algorithm to C01\'s pure tree through the tree a hash '
